@@ -60,6 +60,8 @@ inline uint64_t hashBytes(const std::string& s) { Hash64 h; h.str(s); return h.h
 inline size_t& simReadWindow() { static size_t w = 0; return w; }
 // F-REUSE (plan knob "reuse_object"): restarts load the saved file back into the NifFile object that wrote it
 inline bool& simReuseObject() { static bool r = false; return r; }
+// F-NOSEEK for a whole run (plan knob "pipe_saves"): every save of the run goes to a stream that cannot seek
+inline bool& simPipeSaves() { static bool r = false; return r; }
 
 struct SimIBuf : std::streambuf {
 	std::string img;
